@@ -1,37 +1,50 @@
-# ./check replay <file> -- re-run the scenario of a replay file on the real code (current /repo working tree) and say whether the violated
-# clause is still violated.  exit 1: reproduced, 0: not reproduced, 2: the file carries no executable scenario (obligation + solver output only).
+# ./check replay <file> -- re-run what a replay file carries on the real code (current /repo working tree) and say whether the violated clause is
+# still violated.  exit 1: reproduced, 0: not reproduced, 2: the file carries nothing executable (obligation + solver output only:
+# no-failing-input-found).  Scenario files are re-run through the same native driver and the same clause oracle as the check itself; a failing
+# input found by a bounded stand-in / search battery is re-checked by running that battery again.
 import json
 import os
+import subprocess
 import sys
 
-sys.path.insert(0, os.path.dirname(os.path.dirname(os.path.abspath(__file__))))
+ROOT = os.path.dirname(os.path.dirname(os.path.abspath(__file__)))
+sys.path.insert(0, ROOT)
 from replay import drivers      # noqa: E402
+
+
+def rerun_battery(script):
+    p = subprocess.run(['/venv/bin/python', os.path.join(ROOT, script)], capture_output=True, text=True, timeout=900, cwd='/repo', env=dict(os.environ, PYTHONPATH='/repo'))
+    last = (p.stdout.strip().splitlines() or [''])[-1]
+    print('battery   :', script); print('result    :', last[:1500])
+    if p.returncode not in (0, 1):
+        print(p.stderr[-1500:]); return 3
+    print('violation reproduced on the current tree' if p.returncode == 1 else 'NOT reproduced on the current tree (battery clean within its bound)')
+    return p.returncode
 
 
 def main():
     path = sys.argv[1]; d = json.load(open(path))
     print('property  :', d.get('property')); print('obligation:', d.get('obligation')); print('script    :', d.get('script'))
-    nr = d.get('native_replay')
+    nr = d.get('native_replay'); ns = d.get('native_search')
     if isinstance(nr, dict) and 'failing_input_found_by_bounded_enumeration_on_the_real_code' in nr:
-        print('failing input (bounded enumeration):', nr['failing_input_found_by_bounded_enumeration_on_the_real_code']); return 1
+        print('recorded failing input (bounded enumeration):', nr['failing_input_found_by_bounded_enumeration_on_the_real_code'][:1500])
+        return rerun_battery(nr['stand_in']) if nr.get('stand_in') else 1
+    if isinstance(ns, dict) and ns.get('failing_input_on_the_real_code'):
+        print('recorded failing input (native search):', ns['failing_input_on_the_real_code'][:1500])
+        return rerun_battery(ns['stand_in'])
     if not isinstance(nr, dict) or 'scenario' not in nr:
         print('no executable scenario in this file (no-failing-input-found): solver output:', d.get('solver_output')); return 2
     scn = nr['scenario']
-    script = 'native_match.py' if 'filter' in scn else 'native_tr.py'
-    obs = drivers.native(script, scn)
-    print('scenario  :', json.dumps(scn)); print('observed  :', json.dumps(obs))
-    r = {'scenario': {'calls': scn.get('calls', []), 'exit': scn.get('expected_exit'), 'raised': scn.get('expected_raised')}, 'model': {}}
-    if script == 'native_match.py':
+    if 'filter' in scn:
+        obs = drivers.native('native_match.py', scn)
         bad = obs.get('raised') is not None or (obs.get('expected') not in (None, 'None') and obs.get('result') in ('True', 'False') and obs['result'] != obs['expected'])
     else:
-        name = d.get('obligation', ''); prop = d.get('property')
-        holds = None
-        if '/missing/' in name and scn['unit'] == 'W_in': holds = drivers.missing_policy(obs, scn['config'])
-        elif 'finalised_exactly_once' in name:
-            ev = obs['cassette_events']; holds = ev.count('create') == 1 and ev.count('save') + ev.count('abort') == 1
-        elif 'idle_after' in name: holds = bool(obs['idle'])
-        else: holds = drivers.transparent(obs)
+        obs = drivers.native('native_tr.py', scn)
+        holds = drivers.evaluate(d.get('property'), d.get('obligation', ''), scn, obs)
+        if holds is None:
+            print('scenario  :', json.dumps(scn)); print('observed  :', json.dumps(obs)); print('no oracle for this clause'); return 2
         bad = not holds
+    print('scenario  :', json.dumps(scn)); print('observed  :', json.dumps(obs))
     print('violation reproduced on the current tree' if bad else 'NOT reproduced on the current tree')
     return 1 if bad else 0
 
